@@ -1,6 +1,7 @@
 import Mieru.Proofs.StreamWire
 import Mieru.Proofs.Fragment
 import Mieru.Proofs.TcpSessionWire
+import Mieru.Proofs.EarlyConn
 import Mieru.Gen.Consts
 import Mieru.Gen.Arith
 import Mieru.Gen.Wire
@@ -544,6 +545,108 @@ example (les : Nat → Option LE) :
     (write Sess.client (some ⟨1, 0⟩) les [0x42]).1 = ⟨.openReq, 0, 0, none, []⟩ :: dataSegs les 1 [0x42] :=
   (piggyback_boundary _ les _).2 (Or.inl (by simp))
 
+end Example
+
+/-! ## Round 4: the API handshake (`apis/internal/early_conn.go`) in both modes
+
+`Mieru.Model.EarlyConn`: what `apis/client` DialContext puts between the application and the session
+in HANDSHAKE_STANDARD (request written and response read inside `DialContext`) and in
+HANDSHAKE_NO_WAIT / 0-RTT (request in front of the bytes of the application's first `Write`, in ONE
+session `Write`; response read inside that call, before any `Read` can return), and what
+`apis/server` `Accept` takes from the stream before the proxy application sees it. -/
+
+open Mieru.EarlyConn in
+/-- **The application byte streams do not depend on the handshake mode.**  `prog` is the client
+    application's program of `Write` / `Read` calls on the connection `DialContext` returned; in
+    0-RTT mode the documented requirement "the client writes first" is assumed (without it
+    `acts_noWait_read`: the first `Read` never returns — nothing was sent).  Then, in EITHER mode:
+    the client side's session `Write` calls concatenate to request ++ application bytes, the server's
+    `Accept` (which cannot tell the modes apart) consumes exactly the request and leaves exactly the
+    application bytes; and against the server→client session stream response ++ `sv` (`sv` = the
+    server application's bytes) the client application's reads return what they would return on `sv`
+    alone, partitioning it — no handshake byte reaches the application, no application byte is
+    eaten by the handshake. -/
+theorem api_streams_independent_of_handshake_mode (m : Mode) (req resp sv : Bytes) (prog : List Call)
+    (hreq : Wf req) (hresp : Wf resp) (h : m = .standard ∨ WritesFirst prog) :
+    ∃ as, acts m req prog = some as ∧
+      (writesOf as).flatten = req ++ (appWrites prog).flatten ∧
+      afterAccept (writesOf as).flatten = some (appWrites prog).flatten ∧
+      exec as (resp ++ sv) = some (appReads prog sv) ∧
+      (appReads prog sv).1.flatten ++ (appReads prog sv).2 = sv := by
+  obtain ⟨as, h1, h2⟩ := c2s_stream m req prog h
+  obtain ⟨as', h1', h3⟩ := s2c_reads m req resp sv prog hresp h
+  rw [h1] at h1'
+  cases h1'
+  exact ⟨as, h1, h2, by rw [h2]; exact afterAccept_spec req _ hreq, h3, appReads_spec prog sv⟩
+
+open Mieru.EarlyConn in
+/-- the only difference between the modes, for the wire: the FIRST session `Write`.  Standard: the
+    request alone, then every application write as it is; 0-RTT: request ++ first application
+    write, then the rest as they are.  (`piggyback_boundary` says what the session makes of it: one
+    open-session request carrying it iff at most 1024 bytes and low entropy off.) -/
+theorem api_first_write_by_mode (req b : Bytes) (rest : List Call) :
+    (acts .standard req (.write b :: rest)).map writesOf = some (req :: b :: appWrites rest) ∧
+    (acts .noWait req (.write b :: rest)).map writesOf = some ((req ++ b) :: appWrites rest) ∧
+    (∀ k, acts .noWait req (.read k :: rest) = none) := by
+  refine ⟨?_, ?_, fun k => acts_noWait_read req k rest⟩
+  · rw [acts_standard]; simp [writesOf, writesOf_map, appWrites, toAct]
+  · rw [acts_noWait_write]; simp [writesOf, writesOf_map]
+
+open Mieru.TcpSession Mieru.EarlyConn in
+/-- **Composed with `tcp_client_to_server_end_to_end`.**  The client side of the API in either mode
+    (0-RTT: the client writes first) runs its session writes on a fresh client session with any
+    low-entropy decisions `ds`; under the hypotheses of the end-to-end theorem (any paddings, other
+    sessions on the connection, chunking, schedule of arrivals and reads at the server) the bytes the
+    server session hands out (read ++ pending) are request ++ application bytes, `Accept` consumes
+    exactly the request, and what the proxy application reads is exactly what the client
+    application wrote — the same in both modes. -/
+theorem api_client_to_server_end_to_end (A : Spec.AeadFns) (hA : Spec.AeadLaws32 A)
+    (m : Mode) (req : Bytes) (hreq : Wf req) (prog : List Call) (h : m = .standard ∨ WritesFirst prog)
+    (ds : List (Option LE × (Nat → Option LE))) :
+    ∃ as, acts m req prog = some as ∧
+    ∀ (sid : Nat) (_ : sid < 2 ^ 32)
+    (_ : (run Sess.client (toOps (writesOf as) ds)).1.length ≤ 2 ^ 32)
+    (ws : List Wrap) (_ : ws.length = (run Sess.client (toOps (writesOf as) ds)).1.length)
+    (_ : ∀ p ∈ (run Sess.client (toOps (writesOf as) ds)).1.zip ws, p.2.ok p.1.le)
+    (mine : List (Spec.Segment × Bool))
+    (_ : wrapAll true sid (run Sess.client (toOps (writesOf as) ds)).1 ws = some mine)
+    (others l : List (Spec.Segment × Bool))
+    (_ : ∀ x ∈ others, x.1.wf ∧ TcpSession.Spec.Meta.sessionID x.1.md ≠ sid) (_ : Merge mine others l)
+    (t : Spec.Tx) (_ : t.key.length = 32) (_ : t.nonce.length = 24) (cands : List Bytes)
+    (_ : ∀ k ∈ cands, k.length = 32) (_ : Spec.InSyncFor A t (Spec.Rx.new cands) (Spec.firstMeta l))
+    (bytes : Bytes) (_ : Spec.sealAll A t l = some bytes) (chunks : List Bytes) (_ : chunks.flatten = bytes)
+    (es : List Ev)
+    (_ : arrivals es = TcpSession.forSession sid (chunks.foldl (Spec.feed A) (Spec.Rx.new cands)).out),
+    (runEv Sess.server es).1.flatten ++ (runEv Sess.server es).2.pending = req ++ (appWrites prog).flatten ∧
+    afterAccept ((runEv Sess.server es).1.flatten ++ (runEv Sess.server es).2.pending)
+      = some (appWrites prog).flatten := by
+  obtain ⟨as, h1, h2⟩ := c2s_stream m req prog h
+  refine ⟨as, h1, ?_⟩
+  intro sid hsid hcount ws hwl hws mine hmine others l ho hm t hk hn cands hc hsync bytes hs chunks hch es harr
+  obtain ⟨_, _, e3, _, _⟩ := tcp_client_to_server_end_to_end A hA sid hsid (toOps (writesOf as) ds) hcount ws hwl hws
+    mine hmine others l ho hm t hk hn cands hc hsync bytes hs chunks hch es harr
+  rw [e3, accepted_toOps Sess.client (by decide) (writesOf as) ds, h2]
+  exact ⟨rfl, afterAccept_spec req _ hreq⟩
+
+namespace Example
+open Mieru.EarlyConn
+-- the request of the harness (CONNECT 10.9.9.9:80) and the reply it sends are complete messages;
+-- a domain-name request too; a truncated one is not
+example : Wf [5, 1, 0, 1, 10, 9, 9, 9, 0, 80] ∧ Wf [5, 0, 0, 1, 0, 0, 0, 0, 0, 0] ∧
+    Wf [5, 1, 0, 3, 2, 0x61, 0x62, 1, 187] ∧ ¬ Wf [5, 1, 0, 3, 2, 0x61, 0x62, 1] := by decide
+-- both modes on one program: write 2 bytes, read 3, write 1, read the rest
+example :
+    (acts .standard [5, 1, 0, 1, 10, 9, 9, 9, 0, 80] [.write [1, 2], .read 3, .write [3], .read 9]).map writesOf
+      = some [[5, 1, 0, 1, 10, 9, 9, 9, 0, 80], [1, 2], [3]] ∧
+    (acts .noWait [5, 1, 0, 1, 10, 9, 9, 9, 0, 80] [.write [1, 2], .read 3, .write [3], .read 9]).map writesOf
+      = some [[5, 1, 0, 1, 10, 9, 9, 9, 0, 80, 1, 2], [3]] ∧
+    ((acts .noWait [5, 1, 0, 1, 10, 9, 9, 9, 0, 80] [.write [1, 2], .read 3, .write [3], .read 9]).bind
+      (exec · ([5, 0, 0, 1, 0, 0, 0, 0, 0, 0] ++ [7, 8, 9, 10]))) = some ([[7, 8, 9], [10]], []) ∧
+    ((acts .standard [5, 1, 0, 1, 10, 9, 9, 9, 0, 80] [.write [1, 2], .read 3, .write [3], .read 9]).bind
+      (exec · ([5, 0, 0, 1, 0, 0, 0, 0, 0, 0] ++ [7, 8, 9, 10]))) = some ([[7, 8, 9], [10]], []) := by decide
+-- 0-RTT without the requirement: a client that reads first is stuck, one that never writes sends nothing
+example : acts .noWait [5, 1, 0, 1, 10, 9, 9, 9, 0, 80] [.read 1, .write [1]] = none ∧
+    acts .noWait [5, 1, 0, 1, 10, 9, 9, 9, 0, 80] [] = some [] := by decide
 end Example
 
 end Mieru.C01
